@@ -67,11 +67,14 @@ pub struct Decoder {
     pub plan: Plan,
     /// pattern offset expected to continue the current run (u64::MAX = none yet)
     pub hint: u64,
+    /// set by the recorder when bytes may have been lost since the last chunk (a multishot stream
+    /// was dropped): the next chunk is then only located by at least four agreeing bytes
+    pub lossy: bool,
 }
 
 impl Decoder {
     pub fn new(plan: Plan) -> Self {
-        Self { plan, hint: u64::MAX }
+        Self { plan, hint: u64::MAX, lossy: false }
     }
 
     /// Decode `chunk` into runs [(offset, len)]; offset -1 = bytes that are not the continuation of
@@ -102,6 +105,22 @@ impl Decoder {
                 Some(self.hint)
             } else {
                 None
+            };
+            // a continuation from the hint is only trusted when enough bytes agree (a single byte agrees
+            // by chance once in 240): at least four, or everything up to the end of the chunk / of the
+            // operation followed by the marker of the next one
+            let start = match start {
+                Some(s) if b < MARK => {
+                    let end = self.plan.op_end(s);
+                    let mut m = 1u64;
+                    while j + (m as usize) < chunk.len() && s + m < end && chunk[j + m as usize] == pat(s + m, self.plan.salt) {
+                        m += 1;
+                    }
+                    let at_chunk_end = j + m as usize == chunk.len();
+                    let at_op_end = s + m == end && j + (m as usize) < chunk.len() && chunk[j + m as usize] >= MARK;
+                    if m >= 4 || (!self.lossy && (at_chunk_end || at_op_end)) { Some(s) } else { None }
+                }
+                x => x,
             };
             match start {
                 Some(s) => {
@@ -149,6 +168,9 @@ impl Decoder {
                     }
                 }
             }
+        }
+        if runs.iter().any(|(o, l)| *o >= 0 && *l >= 4) {
+            self.lossy = false;
         }
         runs
     }
